@@ -64,6 +64,7 @@ type SpaceStats struct {
 	NonTrivial      int64   `json:"nontrivial_executions"`
 	FatalCrashes    int     `json:"fatal_crashes"`
 	Hangs           int     `json:"hangs"`
+	Unconfirmed     int     `json:"abnormal_executions_not_reproduced_alone"`
 	WallS           float64 `json:"wall_s"`
 	Rule            string  `json:"rule,omitempty"`
 	Vacuous         bool    `json:"vacuous_suspected,omitempty"`
@@ -230,6 +231,7 @@ type levelAgg struct {
 	outcomes                map[string]struct{}
 	stopped                 bool
 	fatal, hangs            int
+	unconfirmed             int
 }
 
 // Run runs all spaces, writes evidence and replay artefacts, prints the
@@ -284,6 +286,10 @@ func (r *Runner) runSpace(sp *Space) SpaceStats {
 		st.NonTrivial += agg.nontriv
 		st.FatalCrashes += agg.fatal
 		st.Hangs += agg.hangs
+		st.Unconfirmed += agg.unconfirmed
+		if agg.unconfirmed > 0 {
+			st.Exhaustive = false // an execution could not be judged
+		}
 		for o := range agg.outcomes {
 			outcomes[o] = struct{}{}
 		}
@@ -478,7 +484,13 @@ func (s *shm) get() (uint64, string) {
 
 // WorkerMain is the entry point of a worker process.
 // args: <space> <level> <index> <count> <resume|-> ; env VCHECK_SHM, fd 3 = results
+func setMemLimit() {
+	lim := uint64(12 << 30)
+	syscall.Setrlimit(syscall.RLIMIT_AS, &syscall.Rlimit{Cur: lim, Max: lim})
+}
+
 func WorkerMain(chk *Check, tier string, args []string) int {
+	setMemLimit()
 	if chk.Setup != nil {
 		chk.Setup()
 	}
@@ -716,7 +728,11 @@ func (r *Runner) runLevelProcs(sp *Space, lvl int, bm *bitmap) levelAgg {
 					fmt.Printf("HARNESS-ERROR: worker %d of %s died without a case in flight: %s\n", i, sp.Name, truncate(res.stderr, 2000))
 					os.Exit(2)
 				}
-				r.attribute(sp, lvl, res)
+				if !r.attribute(sp, lvl, res) {
+					mu.Lock()
+					tot.unconfirmed++
+					mu.Unlock()
+				}
 				restarts++
 				if restarts >= 6 {
 					mu.Lock()
@@ -842,26 +858,33 @@ func fatalClass(stderr string) (string, string) {
 }
 
 // attribute turns a worker death or hang into a failure, after confirming
-// it by re-running that single execution in a fresh process.
-func (r *Runner) attribute(sp *Space, lvl int, res workerResult) {
-	// confirm
+// it by re-running that single execution in a fresh process.  It returns
+// false when the abnormality did not reproduce alone (the execution is then
+// counted as unconfirmed and the space as not exhaustive; never an alarm).
+func (r *Runner) attribute(sp *Space, lvl int, res workerResult) bool {
 	limit := 60 * time.Second
 	cmd := exec.Command(os.Args[0], "exec1", r.Check.Property, r.Tier, sp.Name, res.culprit)
-	cmd.Env = append(os.Environ(), "GOMAXPROCS=2", "GOTRACEBACK=all")
+	cmd.Env = append(os.Environ(), "GOMAXPROCS=2", "GOTRACEBACK=all", "VCHECK_HANG_SAMPLER=1")
 	var out strings.Builder
 	cmd.Stdout = &out
 	cmd.Stderr = &out
 	cmd.Start()
 	done := make(chan error, 1)
 	go func() { done <- cmd.Wait() }()
-	confirmed := false
+	died, hung := false, false
+	hangFn := ""
 	var dump string
 	select {
 	case err := <-done:
-		if err != nil {
-			confirmed = !res.hang
-		}
 		dump = out.String()
+		if ee, ok := err.(*exec.ExitError); ok && ee.ExitCode() == 4 {
+			hung = true
+			if i := strings.Index(dump, "HANG-FUNC: "); i >= 0 {
+				hangFn = strings.TrimSpace(strings.SplitN(dump[i+11:], "\n", 2)[0])
+			}
+		} else if ok && ee.ExitCode() != 1 {
+			died = true // exit 1 = the execution completed and reported oracle failures in-process
+		}
 	case <-time.After(limit):
 		cmd.Process.Signal(syscall.SIGQUIT)
 		select {
@@ -871,40 +894,98 @@ func (r *Runner) attribute(sp *Space, lvl int, res workerResult) {
 			<-done
 		}
 		dump = out.String()
-		confirmed = res.hang
-		if !res.hang {
-			// died first time, hangs second time: treat as hang
-			res.hang = true
-			res.hangFunc = stuckFunc(dump)
-			confirmed = true
-		}
+		hung = true
 	}
-	if !confirmed {
-		fmt.Printf("HARNESS-ERROR: worker abnormality for %s %s not reproduced alone (hang=%v exit=%s): %s\n", sp.Name, res.culprit, res.hang, res.exit, truncate(res.stderr+dump, 3000))
-		os.Exit(2)
+	if !died && !hung {
+		return false
 	}
 	f := &failRec{Space: sp.Name, Devs: res.culprit, Detail: map[string]string{}}
-	if res.hang {
-		fn := res.hangFunc
-		if fn2 := stuckFunc(dump); fn2 != "?" {
-			fn = fn2
+	if hung {
+		fn := hangFn
+		if fn == "" || fn == "?" {
+			fn = stuckFunc(dump)
+		}
+		if fn == "?" {
+			fn = res.hangFunc
 		}
 		f.Signature = "hang|" + fn
-		f.Message = fmt.Sprintf("execution made no progress for the watchdog period twice (20 s in the batch, 60 s alone); stuck in %s", fn)
-		f.Detail["goroutine_dump"] = truncate(res.hangDump, 4000)
+		f.Message = fmt.Sprintf("execution made no progress for the watchdog period in the batch and did not finish within 30 s alone; stuck in %s", fn)
+		f.Detail["goroutine_dump"] = truncate(dump, 4000)
 	} else {
-		cls, line := fatalClass(res.stderr + "\n" + dump)
-		fn := stuckFunc(res.stderr)
+		cls, line := fatalClass(dump + "\n" + res.stderr)
+		fn := stuckFunc(dump)
 		f.Signature = "fatal|" + cls + "|" + fn
-		f.Message = "worker process died: " + line + " (" + res.exit + ")"
-		f.Detail["stderr"] = truncate(res.stderr, 4000)
+		f.Message = "process died: " + line
+		f.Detail["stderr"] = truncate(dump, 4000)
 	}
-	// materialise via labelled replay where possible (may crash again: do it in the child)
 	r.addFail(f)
+	return true
+}
+
+// hangSampler decides, inside a single-execution process, that the execution
+// is stuck: after 30 s it takes 25 stack samples of the main goroutine and
+// reports the innermost module function common to all of them (the owner of
+// the loop, whichever helper each sample happened to land in).
+func hangSampler() {
+	time.Sleep(30 * time.Second)
+	var common []string
+	for i := 0; i < 25; i++ {
+		buf := make([]byte, 1<<18)
+		n := runtime.Stack(buf, true)
+		fr := moduleFrames(string(buf[:n]), "goroutine 1 [")
+		if i == 0 {
+			common = fr
+		} else {
+			in := map[string]bool{}
+			for _, f := range fr {
+				in[f] = true
+			}
+			var keep []string
+			for _, f := range common {
+				if in[f] {
+					keep = append(keep, f)
+				}
+			}
+			common = keep
+		}
+		time.Sleep(40 * time.Millisecond)
+	}
+	fn := "?"
+	if len(common) > 0 {
+		fn = common[0]
+	}
+	fmt.Printf("HANG-FUNC: %s\n", fn)
+	os.Exit(4)
+}
+
+// moduleFrames lists the module functions (innermost first) on the stack of
+// the goroutine whose header starts with prefix.
+func moduleFrames(dump, prefix string) []string {
+	var out []string
+	for _, g := range strings.Split(dump, "\n\n") {
+		if !strings.HasPrefix(g, prefix) {
+			continue
+		}
+		for _, line := range strings.Split(g, "\n") {
+			line = strings.TrimSpace(line)
+			if strings.HasPrefix(line, ModulePath) && !strings.Contains(line, "/verifshim/") {
+				fn := strings.TrimPrefix(line, ModulePath+"/")
+				if i := strings.LastIndex(fn, "("); i > 0 {
+					fn = fn[:i]
+				}
+				if i := strings.Index(fn, ".func"); i > 0 {
+					fn = fn[:i]
+				}
+				out = append(out, fn)
+			}
+		}
+	}
+	return out
 }
 
 // Exec1Main runs a single execution (used to confirm crashes and for replay).
 func Exec1Main(chk *Check, tier string, spName, devs string, verbose bool) int {
+	setMemLimit()
 	if chk.Setup != nil {
 		chk.Setup()
 	}
@@ -923,6 +1004,9 @@ func Exec1Main(chk *Check, tier string, spName, devs string, verbose bool) int {
 	if err != nil {
 		fmt.Println(err)
 		return 2
+	}
+	if os.Getenv("VCHECK_HANG_SAMPLER") != "" {
+		go hangSampler()
 	}
 	x := Run(sp.H, d, true)
 	if verbose {
